@@ -127,6 +127,34 @@ def c_side(repo):
             ret = x["type"]["qualType"].split("(")[0].strip()
             funs[x["name"]] = (ret, params)
 
+    # the DEFINITIONS: what the shared library exports is what src/*.c define, whatever the headers say (a source file that does
+    # not include its own header is never compared with it by the compiler): a non-static function definition replaces the
+    # header's prototype of the same name
+    def defs_of(cfile):
+        if os.path.getsize(cfile) > 400000:
+            return {}       # data tables (datasets.c)
+        pc = subprocess.run(["clang", "-fsyntax-only", "-std=c99", "-D_GNU_SOURCE", "-w", "-I" + src] + ["-I" + i for i in inc[:1]] +
+                            ["-Xclang", "-ast-dump=json", cfile], stdout=subprocess.PIPE, stderr=subprocess.PIPE, timeout=300)
+        try:
+            dd = json.loads(pc.stdout.decode())
+        except Exception:
+            return {}
+        r = {}
+        for x in dd.get("inner", []):
+            if x.get("kind") != "FunctionDecl" or x.get("storageClass") == "static" or x.get("isImplicit"):
+                continue
+            if not any(c.get("kind") == "CompoundStmt" for c in x.get("inner", []) or []):
+                continue
+            if x.get("inline") and x.get("storageClass") != "extern":
+                continue
+            r[x["name"]] = (x["type"]["qualType"].split("(")[0].strip(), [c["type"]["qualType"] for c in x.get("inner", []) if c.get("kind") == "ParmVarDecl"])
+        return r
+    from concurrent.futures import ThreadPoolExecutor
+    with ThreadPoolExecutor(max_workers=8) as ex:
+        for dm in ex.map(defs_of, sorted(glob.glob(os.path.join(src, "*.c")))):
+            for n_, sig in dm.items():
+                funs[n_] = sig
+
     def resolve(q):
         return re.sub(r"\b([A-Za-z_]\w*)\b", lambda m_: scalars.get(m_.group(1), m_.group(1)), q)
     funs = {n: (resolve(r), [resolve(p_) for p_ in ps_]) for n, (r, ps_) in funs.items()}
@@ -203,7 +231,7 @@ def coq_str(s):
 def run(repo, outdir):
     cs, cf, enums = c_side(repo)
     ps, pd, called, unknown = py_side(repo)
-    out = ["(* GENERATED by /verif/translators/t_abi.py from src/*.h and src/python_bindings/libscientific/*.py — do not edit. *)",
+    out = ["(* GENERATED by /verif/translators/t_abi.py from src/*.h, the function definitions of src/*.c and src/python_bindings/libscientific/*.py — do not edit. *)",
            "From Coq Require Import String List ZArith.", "Import ListNotations.", "From LS Require Import Abi.", "Local Open Scope string_scope.", ""]
     def fl(fields, conv):
         return "[" + "; ".join("(%s, %s)" % (coq_str(n), conv(t)) for n, t in fields) + "]"
